@@ -26,7 +26,7 @@ Next ==
 
 Spec == Init /\ [][Next]_vars
 
-Export == (Len(hist') > Len(hist) /\ hist'[Len(hist')].e = "ret") => PrintT(<<"BEH", ToJson(hist')>>)
+Export == ExportRet
 
 (* ---- properties (C01, C06, C07) on the model ---- *)
 \* a status is reported only for a child that has really ended and been reaped, and equals its status
